@@ -296,6 +296,34 @@ pub fn q_iter_more(s: &str) -> usize {
     a + b * 10 + c * 1000 + d * 100000
 }
 
+pub fn r_int_ops(n: usize) -> usize {
+    let b = (n % 256) as u8;
+    let a = b.saturating_add(200) as usize;
+    let c = b.checked_add(100).map(|x| x as usize).unwrap_or(999);
+    let d = b.wrapping_add(250) as usize;
+    let e = b.saturating_mul(3) as usize;
+    let f = b.checked_mul(40).map(|x| x as usize).unwrap_or(777);
+    let g = b.wrapping_mul(7) as usize;
+    let h = n.saturating_add(5) % 13;
+    a + c * 7 + d * 31 + e * 101 + f * 1009 + g * 10007 + h
+}
+pub fn r_clone_from(s: &str) -> String {
+    let mut a = String::from("old");
+    let b = s.to_string();
+    a.clone_from(&b);
+    a.push('!');
+    a
+}
+pub fn r_ends_with_slice(s: &str) -> usize {
+    (s.ends_with(&['a', 'b'][..]) as usize) + 2 * (s.starts_with(&['x', 'a'][..]) as usize) + 4 * (s.ends_with(['z', 'c']) as usize)
+}
+pub fn r_default(s: &str) -> usize {
+    let m: HashMap<String, String> = Default::default();
+    let t: String = Default::default();
+    let v: Vec<u8> = Default::default();
+    let o: Option<u8> = Default::default();
+    m.len() + t.len() + v.len() + o.is_some() as usize + s.len()
+}
 #[cfg(test)]
 mod probe_native {
     use super::*;
@@ -305,6 +333,9 @@ mod probe_native {
         for (i, s) in inputs.iter().enumerate() {
             let s: &str = s;
             println!("PROBE\tp_find_digit\t{}\t{:?}", i, p_find_digit(s));
+            println!("PROBE\tr_clone_from\t{}\t{:?}", i, r_clone_from(s));
+            println!("PROBE\tr_ends_with_slice\t{}\t{:?}", i, r_ends_with_slice(s));
+            println!("PROBE\tr_default\t{}\t{:?}", i, r_default(s));
             println!("PROBE\tp_filter_map_sum\t{}\t{:?}", i, p_filter_map_sum(s));
             println!("PROBE\tp_chain\t{}\t{:?}", i, p_chain(s));
             println!("PROBE\tp_take_while\t{}\t{:?}", i, p_take_while(s));
@@ -351,9 +382,10 @@ mod probe_native {
                 println!("PROBE\tp_char_boundary\t{},{}\t{:?}", i, n, p_char_boundary(s, n));
             }
         }
-        for n in [0usize, 2, 3, 5, 7, 9, 100] {
+        for n in [0usize, 2, 3, 5, 7, 9, 100, 56, 86, 156, 255, 300] {
             println!("PROBE\tp_saturating\t{}\t{:?}", n, p_saturating(n));
             println!("PROBE\tq_wrapping\t{}\t{:?}", n, q_wrapping(n));
+            println!("PROBE\tr_int_ops\t{}\t{:?}", n, r_int_ops(n));
         }
     }
 }
